@@ -326,6 +326,57 @@ def rule_keyinj(ctx):
     return r
 
 
+def rule_identity(ctx):
+    """Cache keys compare by ``==``/hash, under which ``0 == False`` and ``1 == True``
+    (and ``0.0``).  An option that is part of the key must therefore not be tested by
+    *identity* against ``True``/``False`` anywhere in the cached build or in what the
+    built callable executes: two equal-but-not-identical values would share one cache
+    entry and behave differently without the cache."""
+    r = RuleResult("C13-IDENTITY", "keyed options are not distinguished by identity in the build", 1)
+    # option names: named parameters (with defaults) of the functions holding a data cache
+    opts = set()
+    roots = []
+    for f, cname, trynode, keyexpr, build in cache_sites(ctx):
+        if not _is_data_cache(ctx, f, cname):
+            continue
+        opts |= set(f.defaults())
+        for c in ctx.r.resolve_call(f, build).callees:
+            roots.append(c)
+            opts |= set(c.defaults())
+    opts -= {"optimize", "cache", "cache_expression", "size_dict", "shapes", "output"}
+    C.require(roots and opts, "cached build functions not recognised")
+    scope = {g.key: g for g in ctx.r.reachable_funcs(roots, depth=6)}
+    # what the built callables execute: __call__ of the classes they construct, and the
+    # tree methods they bind
+    for path in (C.CONTRACT, C.CORE, C.INTERFACE):
+        for g in ctx.p.module(path).all_funcs:
+            if g.name in ("__call__", "contract", "contract_core", "contract_slice", "get_contractor",
+                          "gather_slices", "gen_output_chunks") or g.key in scope:
+                scope[g.key] = g
+    n_sites = 0
+    for g in scope.values():
+        for n in walk_local(g.node):
+            if not (isinstance(n, ast.Compare) and len(n.ops) == 1 and
+                    isinstance(n.ops[0], (ast.Is, ast.IsNot))):
+                continue
+            rhs = n.comparators[0]
+            if not (isinstance(rhs, ast.Constant) and isinstance(rhs.value, bool)):
+                continue
+            lhs = n.left
+            name = lhs.id if isinstance(lhs, ast.Name) else (lhs.attr if isinstance(lhs, ast.Attribute) else None)
+            if name not in opts:
+                continue
+            n_sites += 1
+            r.violation(ctx.key(g, "C13-IDENTITY", name), C.loc(g, n),
+                        f"`{C.unparse(n)}` distinguishes the keyed option `{name}` by identity: "
+                        f"{name}=0 and {name}=False (equal, same hash) share one cache entry but take "
+                        "different branches here, so the cached call and the uncached call disagree")
+    if not n_sites:
+        r.ok(f"{C.INTERFACE}::C13-IDENTITY", "", f"no identity test on {len(opts)} keyed options in "
+             f"{len(scope)} functions of the build/execute closure", options=sorted(opts))
+    return r
+
+
 def rule_unhash(ctx):
     r = RuleResult("C13-UNHASH", "unhashable queries fall back to the uncached build", 2)
     for f, cname, trynode, keyexpr, build in cache_sites(ctx):
@@ -662,5 +713,5 @@ def rule_hidden(ctx):
     return r
 
 
-RULES = [rule_keycomp, rule_keyinj, rule_keyspace, rule_unhash, rule_memo, rule_stateless,
+RULES = [rule_keycomp, rule_keyinj, rule_keyspace, rule_unhash, rule_identity, rule_memo, rule_stateless,
          rule_whitelist, rule_dispatch, rule_hidden]
